@@ -24,6 +24,161 @@ here = os.path.dirname(os.path.dirname(os.path.abspath(__file__)))
 ALL = ["C%02d" % i for i in range(1, 21)]
 
 
+class NpAlias(ast.NodeTransformer):
+    """`import numpy` -> `import numpy as np`, every `numpy.` -> `np.` (module by module, when `np` is free)"""
+
+    def __init__(self):
+        self.count = 0
+
+    def visit_Module(self, node):
+        names = {n.id for n in ast.walk(node) if isinstance(n, ast.Name)} | {a.arg for n in ast.walk(node) if isinstance(n, ast.arguments) for a in n.args + n.kwonlyargs + n.posonlyargs}
+        plain = [n for n in ast.walk(node) if isinstance(n, ast.Import) and any(a.name == "numpy" and a.asname is None for a in n.names)]
+        if not plain or "np" in names:
+            return node
+        # `import numpy.x` style imports bind `numpy` too: leave such modules alone
+        if any(isinstance(n, ast.Import) and any(a.name.startswith("numpy.") and a.asname is None for a in n.names) for n in ast.walk(node)):
+            return node
+        for n in plain:
+            for a in n.names:
+                if a.name == "numpy":
+                    a.asname = "np"
+        for n in ast.walk(node):
+            if isinstance(n, ast.Name) and n.id == "numpy":
+                n.id = "np"
+                self.count += 1
+        return node
+
+
+class Extractor(ast.NodeTransformer):
+    """`return <expr>` -> `_xt = <expr>; return _xt` and `x[..] = <expr>` / `o.a = <expr>` -> `_xt = <expr>; x[..] = _xt`"""
+
+    def __init__(self):
+        self.count = 0
+        self.k = 0
+
+    def _fresh(self):
+        self.k += 1
+        return "_xt%d" % self.k
+
+    def _block(self, stmts):
+        out = []
+        for st in stmts:
+            st = self.generic_visit(st) if not isinstance(st, (ast.FunctionDef, ast.AsyncFunctionDef, ast.ClassDef)) else self.visit(st)
+            if isinstance(st, ast.Return) and st.value is not None and not isinstance(st.value, (ast.Name, ast.Constant)):
+                t = self._fresh()
+                out.append(ast.Assign(targets=[ast.Name(id=t, ctx=ast.Store())], value=st.value, lineno=st.lineno, col_offset=0))
+                st.value = ast.Name(id=t, ctx=ast.Load())
+                self.count += 1
+            elif isinstance(st, ast.Assign) and len(st.targets) == 1 and isinstance(st.targets[0], (ast.Subscript, ast.Attribute)) \
+                    and not isinstance(st.value, (ast.Name, ast.Constant)):
+                t = self._fresh()
+                out.append(ast.Assign(targets=[ast.Name(id=t, ctx=ast.Store())], value=st.value, lineno=st.lineno, col_offset=0))
+                st.value = ast.Name(id=t, ctx=ast.Load())
+                self.count += 1
+            out.append(st)
+        return out
+
+    def generic_visit(self, node):
+        for fld in ("body", "orelse", "finalbody"):
+            v = getattr(node, fld, None)
+            if isinstance(v, list) and v and isinstance(v[0], ast.stmt):
+                setattr(node, fld, self._block(v))
+        if isinstance(node, ast.Try):
+            for h in node.handlers:
+                h.body = self._block(h.body)
+        return node
+
+    def visit_Module(self, node):
+        # only inside functions: module / class level temporaries would become attributes
+        for n in ast.walk(node):
+            if isinstance(n, (ast.FunctionDef, ast.AsyncFunctionDef)):
+                pass
+        return self._walk_defs(node)
+
+    def _walk_defs(self, node):
+        for i, st in enumerate(getattr(node, "body", [])):
+            if isinstance(st, (ast.FunctionDef, ast.AsyncFunctionDef)):
+                self.k = 0
+                st.body = self._block(st.body)
+            elif isinstance(st, ast.ClassDef):
+                self._walk_defs(st)
+        return node
+
+    def visit_FunctionDef(self, node):
+        node.body = self._block(node.body)
+        return node
+
+    visit_AsyncFunctionDef = visit_FunctionDef
+
+    def visit_ClassDef(self, node):
+        return self._walk_defs(node)
+
+
+def _terminal(stmts):
+    return bool(stmts) and isinstance(stmts[-1], (ast.Return, ast.Raise, ast.Continue, ast.Break))
+
+
+class IfShaper(ast.NodeTransformer):
+    """unelse: `if c: ..return.. else: B` -> `if c: ..return..` + B;  negif: `if c: A else: B` -> `if not c: B else: A`"""
+
+    def __init__(self, mode):
+        self.mode = mode
+        self.count = 0
+
+    def _block(self, stmts):
+        out = []
+        for st in stmts:
+            st = self.visit(st)
+            if isinstance(st, ast.If) and st.orelse:
+                if self.mode == "unelse" and _terminal(st.body):
+                    rest = st.orelse
+                    st.orelse = []
+                    out.append(st)
+                    out.extend(rest)
+                    self.count += 1
+                    continue
+                if self.mode == "negif" and not (len(st.orelse) == 1 and isinstance(st.orelse[0], ast.If)):
+                    st.test = ast.UnaryOp(op=ast.Not(), operand=st.test)
+                    st.body, st.orelse = st.orelse, st.body
+                    self.count += 1
+            out.append(st)
+        return out
+
+    def generic_visit(self, node):
+        super().generic_visit(node)
+        for fld in ("body", "orelse", "finalbody"):
+            v = getattr(node, fld, None)
+            if isinstance(v, list) and v and isinstance(v[0], ast.stmt):
+                setattr(node, fld, self._block_noreenter(v))
+        return node
+
+    def _block_noreenter(self, stmts):
+        out = []
+        for st in stmts:
+            if isinstance(st, ast.If) and st.orelse:
+                if self.mode == "unelse" and _terminal(st.body):
+                    rest = st.orelse
+                    st.orelse = []
+                    out.append(st)
+                    out.extend(rest)
+                    self.count += 1
+                    continue
+                if self.mode == "negif" and not (len(st.orelse) == 1 and isinstance(st.orelse[0], ast.If)) and not getattr(st, "_neg", False):
+                    st.test = ast.UnaryOp(op=ast.Not(), operand=st.test)
+                    st.body, st.orelse = st.orelse, st.body
+                    st._neg = True
+                    self.count += 1
+                NEG = {ast.Eq: ast.NotEq, ast.NotEq: ast.Eq, ast.Is: ast.IsNot, ast.IsNot: ast.Is, ast.In: ast.NotIn, ast.NotIn: ast.In}
+                if self.mode == "negcmp" and not (len(st.orelse) == 1 and isinstance(st.orelse[0], ast.If)) and not getattr(st, "_neg", False) \
+                        and isinstance(st.test, ast.Compare) and len(st.test.ops) == 1 and type(st.test.ops[0]) in NEG:
+                    st.test.ops = [NEG[type(st.test.ops[0])]()]
+                    st.body, st.orelse = st.orelse, st.body
+                    st._neg = True
+                    self.count += 1
+            out.append(st)
+        return out
+
+
 class Commuter(ast.NodeTransformer):
     """behaviour-preserving rewrites of expressions: a * b -> b * a (numbers / arrays / sequence repetition commute), a < b -> b > a, a == b -> b == a;
     positional arguments of calls to plain names are left alone.  Only inside function bodies."""
@@ -238,6 +393,12 @@ def build(suffix, mode="rename"):
                 r = KwCaller(prog, m_)
             elif mode == "inline":
                 r = Inliner()
+            elif mode == "npalias":
+                r = NpAlias()
+            elif mode == "extract":
+                r = Extractor()
+            elif mode in ("unelse", "negif", "negcmp"):
+                r = IfShaper(mode)
             else:
                 r = Renamer(suffix) if mode == "rename" else Commuter()
             tree = r.visit(tree)
@@ -291,6 +452,8 @@ def main():
         print("renamed copy: %d files, %d local-name occurrences renamed (suffix %s), re-emitted by ast.unparse" % (nf, nn, suffix))
     elif mode == "inline":
         print("inlined copy: %d files, %d single-use pure temporaries substituted into the statement that follows them, re-emitted by ast.unparse" % (nf, nn))
+    elif mode in ("npalias", "extract", "unelse", "negif", "negcmp"):
+        print("%s copy: %d files, %d sites rewritten (%s), re-emitted by ast.unparse" % (mode, nf, nn, {"npalias": "import numpy -> import numpy as np, numpy.x -> np.x", "extract": "returned / stored expressions moved into a fresh temporary", "unelse": "else branch after a terminal if-body de-nested", "negif": "if c: A else: B -> if not c: B else: A", "negcmp": "if a == b: A else: B -> if a != b: B else: A (also is / in)"}[mode]))
     elif mode == "kwcalls":
         print("keyword-call copy: %d files, %d calls of package functions / own methods rewritten from positional to keyword arguments, re-emitted by ast.unparse" % (nf, nn))
     else:
